@@ -54,7 +54,22 @@ def main():
                     good = True; break
             if not good:
                 still.append(t)
-        rec["suite_with_patch"] = {"failed_in_full_run": failed, "still_failing_alone": still}
+        # a test that keeps failing alone is excused only if it fails the same way WITHOUT the patch
+        # under the current machine load (timing-sensitive tests of the baseline)
+        excused = []
+        if still:
+            sh(["git", "apply", "-R", "--whitespace=nowarn", os.path.join(src, "patch.diff")], wt)
+            for t in list(still):
+                bad_clean = True
+                for _ in range(2):
+                    r, o = sh(["go", "test", "-vet=off", "-count=1", "-run", f"^{t}$"] + pkgs, wt, 900)
+                    if r == 0 or not re.search(r"^--- FAIL", o, re.M):
+                        bad_clean = False; break
+                if bad_clean:
+                    excused.append(t); still.remove(t)
+            sh(["git", "apply", "--whitespace=nowarn", os.path.join(src, "patch.diff")], wt)
+        rec["suite_with_patch"] = {"failed_in_full_run": failed, "still_failing_alone": still,
+                                   "also_failing_without_patch_under_load": excused}
         ok = rec["builds"] and rc0 == 0 and rc1 != 0 and not still
         rec["kept"] = ok
     finally:
